@@ -39,8 +39,8 @@ def check_case(case: dict):
             routes["ac-livingroom.lan"] = [hosts[0]["ip"]]
         # other responders on the network whose replies are not well-formed (C18 decides what happens to *them*; here
         # they must not keep a well-formed responder from being reported)
-        bad = [dict(ip=f"10.0.9.{i + 1}", listen_port=[6445, 20086][i % 2],
-                    replies=[(b.get("delay", 0.02), 6445, discsim.bad_reply(b["kind"], b["arg"], f"10.0.9.{i + 1}"))]) for i, b in enumerate(case.get("bad", []))]
+        bad = [dict(ip=f"240.0.9.{i + 1}", listen_port=[6445, 20086][i % 2],
+                    replies=[(b.get("delay", 0.02), 6445, discsim.bad_reply(b["kind"], b["arg"], f"240.0.9.{i + 1}"))]) for i, b in enumerate(case.get("bad", []))]
         if target == "directed":
             routes["10.255.255.255"] += [b["ip"] for b in bad]
         world = discsim.UdpWorld(net, [dict(ip=h["ip"], listen_port=h["listen_port"],
@@ -72,12 +72,12 @@ def check_case(case: dict):
             res["exc"] = e
         res["bad_probes"] = world.bad_probes
         res["probes"] = len(world.probes_seen)
-        res["tcp"] = [a for a in net.tcp_attempts if not str(a[1]).startswith("10.0.9.")]      # (V1/XML neighbours are queried over TCP by design)
+        res["tcp"] = [a for a in net.tcp_attempts if not str(a[1]).startswith("240.0.9.")]      # (V1/XML neighbours are queried over TCP by design)
 
     vloop.run(main, net)
     if "exc" in res:
         return (f"raises/{type(res['exc']).__name__}", f"discover raised {res['exc']!r}")
-    devs = [d for d in res["devices"] if not d.ip.startswith("10.0.9.")]
+    devs = [d for d in res["devices"] if not d.ip.startswith("240.0.9.")]
     expected_hosts = hosts[:1] if (case.get("single") or case.get("target") == "name") else hosts
     expected_hosts = [h for h in expected_hosts if h["listen_port"] != case.get("send_error")]
     by_ip = {}
